@@ -7,6 +7,14 @@ props = [json.loads(l) for l in open(os.path.join(HERE, "properties.jsonl"))]
 TECH = "bounded symbolic execution of rustc MIR (mirsym) decided by z3; counterexamples replayed natively"
 
 CLAIMED = {
+ "C02": dict(
+   text="Bounded model checking of one inductive step of 'the vault equals the replay of its log': from every log CreateVault . e1..en (n <= 2 quick / 3 thorough, symbolic arguments, ids from a pool of two) let V = build(reduce(L)); apply one real in-memory vault operation (EncryptedEntry for Vault: set name/flags/meta, insert/update/delete, from MIR) with arbitrary arguments, append the event it reports, and z3 decides per path that build(reduce(L.event)) equals the operated vault on name, flags, meta and the id->entry map; plus new_until_commit(k) equals the fold of the first k+1 events. Counterexamples are replayed on a real file-system event log.",
+   note="Kernel only. Trusted: rustc MIR, mirsym models (IndexMap as association list, harness event log stream), z3. Outside: merges and force merges, the mirrored vault file / sqlite rows, encryption (blobs are opaque bytes), both backends.",
+   design="DESIGN.md section 3, C02"),
+ "C05": dict(
+   text="Bounded model checking of the merge kernel: AutoMerge::merge_patches (provided trait method, from MIR) runs on local and remote suffixes of up to 2 (quick) / 3 (thorough) records each with symbolic timestamps (ties, skew) and symbolic commit ids (any equality pattern across the sides). z3 decides per path: local subset of remote => RewindLocal(remote) unchanged; otherwise PushRemote(p) with p ordered by time, containing every local and remote commit, each exactly once, and nothing else. Counterexamples are replayed natively through a do-nothing AutoMerge implementor.",
+   note="Kernel only. Trusted: rustc MIR, mirsym models (HashSet as list, stable insertion sort executing the closure's MIR), ideal commit ids, z3. Outside: rewind/patch I/O on client and server, sync orders, three devices, convergence (C04).",
+   design="DESIGN.md section 3, C05"),
  "C06": dict(
    text="Bounded model checking of the file-system log format: the real encoder (<EventRecord as Encodable>::encode) writes k <= 2 (quick) / 3 (thorough) records with symbolic time, commits and payload bytes behind the identity bytes, and the real iterator (FormatStream::next_forward / next_back, EventLogRecord::decode, byte_length) reads them back, both from the MIR of the current tree. z3 decides, for every value of the symbolic fields, that forward iteration yields exactly the appended records in order with their timestamps and commits, that every row's offsets frame exactly the encoder's bytes and its value range is the payload, that backward iteration is the mirror image and that byte lengths add up to the file length minus the header.",
    note="Format layer of the file-system backend only. Trusted: rustc MIR, mirsym and its reader/writer models, z3. Outside: the per-operation file I/O of apply/rewind/clear/replace_all (vfs model not built), the sqlite backend, cross-backend agreement, co-resident logs, advisory locks; that stored commit hashes are SHA-256 of the event bytes.",
